@@ -55,13 +55,14 @@ Definition alg_reported (k : vkind) (t : token) (alg : string) : bool :=
   end.
 
 (* claims c' handed back by verifier k: they are the decoding of the middle
-   segment, whose bytes are the payload a trusted signature covers *)
+   segment, whose bytes are the payload a trusted signature covers - made by the
+   key the key set designates, not by one of several possible keys (sig_believable) *)
 Definition accept_ok (k : vkind) (v : verifier) (ks : keyset) (t : token) (m : middle)
            (c' : claims) (alg : string) : bool :=
   match m with
   | MidOk bytes c =>
       claims_eqb c' (returned_claims k c)
-      && sig_genuine (verifier_algs k v) (verifier_keyset k ks c) t bytes
+      && sig_believable (verifier_algs k v) (verifier_keyset k ks c) t bytes
       && alg_reported k t alg
   | _ => false
   end.
@@ -89,7 +90,7 @@ Fixpoint remote_seq_spec (allowed : list string) (skip : bool) (held : list jwk)
       (negb f || match rs_served s with Some _ => true | None => false end)
       && match res with
          | Ok alg =>
-             sig_genuine allowed (KSOpenID (Some held')) (rs_tok s) (rs_parsed s)
+             sig_believable allowed (KSOpenID (Some held')) (rs_tok s) (rs_parsed s)
              && (alg =s sig_alg (rs_tok s))
          | Err _ => negb (sig_complete allowed (KSRemote held (rs_served s) skip) (rs_tok s) (rs_parsed s))
          end
@@ -117,7 +118,7 @@ Definition spec (i : input) (o : observed) : bool :=
   match i, o with
   | IFind kid use alg keys, OFind r => find_spec kid use alg keys r
   | ICheckSig allowed ks t parsed, OSig (Ok alg) =>
-      sig_genuine allowed ks t parsed && (alg =s sig_alg t)
+      sig_believable allowed ks t parsed && (alg =s sig_alg t)
   | ICheckSig allowed ks t parsed, OSig (Err _) => negb (sig_complete allowed ks t parsed)
   | IVerify k v ks t m _ _, OVerify o => verify_step_ok k v ks t m o
   | IRemoteSeq allowed skip steps, ORemoteSeq l => remote_seq_spec allowed skip [] steps l
